@@ -77,6 +77,9 @@ func main() {
 	for _, f := range []run{{"v1only", []string{"form1", "rev1", "prove1"}}, {"v2only", []string{"form2", "rev2", "res2"}}} {
 		// one file size per enumeration (height 5 prints more than TLC's output cap allows); thorough enumerates all three
 		sizes := []int{200}
+		if f.shape == "v2only" {
+			sizes = []int{200, 0} // an empty file is a special case of several resolution rules
+		}
 		if c.Thorough {
 			sizes = []int{200, 0, 64}
 		}
